@@ -218,31 +218,140 @@ func newPlan(items []Item) (*plan, string) {
 		// Go cannot return while relayed output is unread
 		return nil, "go_returned gate with output"
 	}
-	if p.gates["reaped"] > 0 {
-		if p.hasCwait {
-			return nil, "reaped gate while child waits for consumer"
+	if p.gates["reaped"] > 0 && p.hasCwait {
+		return nil, "reaped gate while child waits for consumer"
+	}
+	// Every consumer gate is looked at with the consumer standing still at
+	// its position pos (bytes read so far): what the gate waits for must be
+	// able to happen without the consumer reading any further.
+	eofAt := len(p.child)
+	for i, st := range p.child {
+		if st.K == "eof" {
+			eofAt = i
 		}
-		pos := 0
-		for _, it := range p.cons {
-			switch it.K {
-			case "read":
-				pos += it.N
-			case "rgate":
-				if it.G == "reaped" && total-pos > pipeSafe {
-					return nil, "reaped gate with more than a safe pipe load outstanding"
+	}
+	pos := 0
+	for _, it := range p.cons {
+		switch it.K {
+		case "read":
+			pos += it.N
+		case "rgate":
+			switch it.G {
+			case "reaped":
+				// the child must be able to finish all its steps
+				if !p.childCanReach(len(p.child), pos) {
+					return nil, "reaped gate with more outstanding output than a pipe surely holds"
 				}
 				// While the consumer does not read, a relay can be expected
 				// to take at most one chunk per descriptor out of the kernel
 				// pipe.  (Only speed depends on this: a wdrain gives up after
 				// its soft cap.)
-				if it.G == "reaped" && (p.wdrains[1] > 0 || p.wdrains[2] > 0) &&
+				if (p.wdrains[1] > 0 || p.wdrains[2] > 0) &&
 					(pos > 0 || p.wdrains[1] > 1 || p.wdrains[2] > 1 || p.wdrainDeep) {
 					return nil, "wdrain that a waiting consumer could block"
+				}
+			case "input_done":
+				// the input must be able to end: either it fits into the
+				// stdin pipe whatever the child does, or the child gets to
+				// its eof step (and then reads it) on its own
+				if !p.inputFits() && !(p.childCanReach(eofAt, pos) && !p.wdrainBefore(eofAt)) {
+					return nil, "input_done gate: input neither fits the stdin pipe nor is the child sure to read it"
 				}
 			}
 		}
 	}
 	return p, ""
+}
+
+// pipeSlots: a kernel pipe has 16 page slots; a write of n bytes takes up to
+// ceil(n/4096) of them, however little is in them (only a write's remainder
+// is merged into the last page, and only if it fits).  One slot is kept spare.
+const (
+	pipePage  = 4096
+	pipeSlots = 15
+)
+
+func slotsOf(n int) int { return (n + pipePage - 1) / pipePage }
+
+// suffixFits: can the last l bytes of a sequence of writes surely sit in one
+// kernel pipe at the same time?
+func suffixFits(ws []int, l int) bool {
+	if l > pipeSafe {
+		return false
+	}
+	slots := 0
+	for i := len(ws) - 1; i >= 0 && l > 0; i-- {
+		n := ws[i]
+		if n == 0 {
+			continue
+		}
+		if n <= l {
+			slots += slotsOf(n)
+			l -= n
+		} else {
+			slots += slotsOf(l) + 1 // a partly consumed write: its pages are not aligned
+			l = 0
+		}
+	}
+	return slots <= pipeSlots
+}
+
+// childCanReach: with the consumer standing still after pos bytes, can the
+// child complete its steps [0,upto) under a correct shell?  Its writes must
+// fit into the kernel pipes (per descriptor: whatever of them the consumer
+// cannot have taken yet), and it must not wait for the consumer.
+func (p *plan) childCanReach(upto, pos int) bool {
+	var ws [3][]int
+	var sum [3]int
+	for _, st := range p.child[:upto] {
+		switch st.K {
+		case "w":
+			ws[st.FD] = append(ws[st.FD], st.N)
+			sum[st.FD] += st.N
+		case "cwait":
+			if st.N > pos {
+				return false
+			}
+		}
+	}
+	rest := sum[1] + sum[2] - pos
+	if rest < 0 {
+		rest = 0
+	}
+	for fd := 1; fd <= 2; fd++ {
+		if !suffixFits(ws[fd], min(sum[fd], rest)) {
+			return false
+		}
+	}
+	return true
+}
+
+func (p *plan) wdrainBefore(upto int) bool {
+	for _, st := range p.child[:upto] {
+		if st.K == "wdrain" {
+			return true
+		}
+	}
+	return false
+}
+
+// inputFits: can the whole input be written into the stdin pipe of a child
+// that does not read?  (A chunk above 32 KiB may reach the pipe in two
+// writes: exec copies through a 32 KiB buffer.)
+func (p *plan) inputFits() bool {
+	if p.inTotal > pipeSafe {
+		return false
+	}
+	slots := 0
+	for _, it := range p.input {
+		if it.K == "in" {
+			slots += slotsOf(it.N)
+			if it.N > copyChunk {
+				slots++
+			}
+		}
+	}
+	return slots <= pipeSlots-1
 }
 
 // childSteps reports whether the plan's last child write is a large one that
